@@ -60,12 +60,12 @@ def compare_tables(ck, rule, construct, code_rows, ref_rows, slot, where=None, d
     return False
 
 
-def check_api(ck, prog, pairs, rule="BIND-api", allow_pre=(), memo=None):
+def check_api(ck, prog, pairs, rule="BIND-api", allow_pre=(), memo=None, skip_returns=()):
     """pairs: [(api method, backend method, argmap or None)]"""
     n = 0
     for api, backend, argmap in pairs:
         bind.check_wrapper(ck, prog, rule, SP, "SequenceParameters." + api, SEQ + ":Sequence." + backend,
-                           argmap=argmap, allow_pre=allow_pre, memo=memo)
+                           argmap=argmap, allow_pre=allow_pre, memo=memo, skip_returns=skip_returns)
         n += 1
     ck.count("api wrappers checked", n)
 
@@ -218,6 +218,9 @@ def check_memos(ck, prog, pid=None, scope=None, E=None, decide_lossy=None):
             if s.scope == "object" and not getattr(s, "slot", False):
                 from lcsa import sym as _sym
                 _sym.MEMO_OK_TABLES.add(s.table)
+            elif s.scope == "object":
+                from lcsa import sym as _sym
+                _sym.MEMO_OK_SLOTS.add(s.table)
             ck.ob("MEMO-KEY", s.construct, True, expected="complete key", found={"table": s.table, "key": r["key"]}, slot="table:" + s.table, where=s.where())
         else:
             # a key made of projections (counts, lengths): only a property that knows what the cached value depends on can decide it
@@ -472,3 +475,38 @@ def carried_state(prog, f, call):
                 ok = False
         out.append(("patched-copy" if ok else "unknown", "%s = %s; %d paired edits" % (local, st, len(pat))))
     return out
+
+
+def check_index_truthiness(ck, prog, fkeys, names, what):
+    """TRUTH-index: `any(xs)` / `all(xs)` over a collection of 0-based positions tests the truth of the POSITIONS, and position 0 is falsy:
+    as an emptiness test (`if not any(sites)`) it takes a collection that holds only position 0 for an empty one.  xs: an expression that
+    mentions one of `names` (a parameter, `self.<field>`) directly or through a local bound to it."""
+    import ast
+    from lcsa.model import unparse
+    n = 0
+    for key in fkeys:
+        rel, qual = key.split(":")
+        try:
+            f = prog.fn(rel, qual)
+        except Exception:
+            continue
+        aliases = set(names)
+        for _ in range(3):
+            for a in ast.walk(f.node):
+                if isinstance(a, ast.Assign) and len(a.targets) == 1 and isinstance(a.targets[0], ast.Name):
+                    v = a.value
+                    while isinstance(v, ast.Call) and getattr(v.func, "id", None) in ("list", "set", "tuple", "sorted", "frozenset") and len(v.args) == 1:
+                        v = v.args[0]
+                    if unparse(v) in aliases:
+                        aliases.add(a.targets[0].id)
+        for c in ast.walk(f.node):
+            if isinstance(c, ast.Call) and getattr(c.func, "id", None) in ("any", "all") and len(c.args) == 1:
+                arg = c.args[0]
+                while isinstance(arg, ast.Call) and getattr(arg.func, "id", None) in ("list", "set", "tuple", "sorted", "frozenset") and len(arg.args) == 1:
+                    arg = arg.args[0]
+                if unparse(arg) in aliases:
+                    n += 1
+                    ck.ob("TRUTH-index", f.mod.relpath + ":" + f.qual, False, expected="%s tested for emptiness with len(...) == 0 / `not xs`" % what,
+                          found=unparse(c), slot="%s:%s" % (c.func.id, unparse(arg)), where=f.loc(c),
+                          note="%s(...) looks at the truth of the elements: a collection holding only position 0 counts as empty" % c.func.id)
+    return n
